@@ -1,0 +1,39 @@
+//go:build verif
+
+// Contracts for the govc verifier (/verif). Comment-only; compiled only with -tags verif.
+
+package info
+
+// C01: index safety of the page-number analysis. linksOK: every link is a non-nil object whose
+// position points into the list of ascending numbers; numbersOK: that list holds non-nil objects.
+
+//@ func (*PageNumbersState).isPageNumberSequence(ascendingNumbers)
+//@   requires pns != nil && numbersOK(ascendingNumbers)
+//@   assigns info.PageNumbersState.NextPagingURL
+//@   fresh_assigns maps
+//@   loop 0 invariant pns != nil && numbersOK(ascendingNumbers)
+//@   loop 1 invariant 0 <= i && i <= len(ascendingNumbers) - 1 && 0 <= currentStart && currentStart <= i && mapSequenceEnd != nil && numbersOK(ascendingNumbers)
+//@   loop 1 invariant forall(k[int], implies(inmap(mapSequenceEnd, k), 0 <= k && k < mapSequenceEnd[k] && mapSequenceEnd[k] <= len(ascendingNumbers)))
+//@   loop 1 decreases len(ascendingNumbers) - i
+//@   loop 2 invariant 0 <= sequenceStart && sequenceStart <= sequenceEnd && sequenceEnd <= len(ascendingNumbers) && numbersOK(ascendingNumbers)
+//@   loop 2 invariant forall(k[int], implies(inmap(mapSequenceEnd, k), 0 <= k && k < mapSequenceEnd[k] && mapSequenceEnd[k] <= len(ascendingNumbers)))
+//@   loop 3 invariant numbersOK(ascendingNumbers)
+
+//@ func (ListLinkInfo).LinearFormula()
+//@   requires forall(i, 0 <= i && i < len(allLinkInfo), allLinkInfo[i] != nil)
+//@   loop 0 invariant 2 <= i && forall(k, 0 <= k && k < len(allLinkInfo), allLinkInfo[k] != nil) && coefficient != 0
+//@   loop 0 decreases len(allLinkInfo) - i
+
+//@ func (ListLinkInfo).PageNumbersState(ascendingNumbers)
+//@   requires linksOK(allLinkInfo, ascendingNumbers) && numbersOK(ascendingNumbers) && len(ascendingNumbers) >= 2 && len(allLinkInfo) >= 1
+//@   fresh_assigns info.PageNumbersState.*, maps
+//@   ensures result != nil && fresh(result)
+//@   loop 0 invariant state != nil && linksOK(allLinkInfo, ascendingNumbers) && numbersOK(ascendingNumbers) && pageParamSet != nil
+//@   loop 0 invariant -1 <= lastPos && lastPos < len(ascendingNumbers) && -1 <= firstPos && firstPos < len(ascendingNumbers) && -1 <= gapPos && gapPos < len(ascendingNumbers)
+//@   loop 0 invariant (lastPos == -1) == (ITER == 0) && implies(lastPos != -1, 0 <= firstPos && firstPos <= lastPos)
+//@   loop 1 invariant firstPos + 1 <= i && 0 <= firstPos && lastPos < len(ascendingNumbers) && numbersOK(ascendingNumbers) && state != nil
+//@   loop 1 decreases lastPos - i
+
+//@ func (ListLinkInfo).Evaluate(pagePattern, ascendingNumbers, firstPageURL)
+//@   requires linksOK(allLinkInfo, ascendingNumbers) && numbersOK(ascendingNumbers) && len(ascendingNumbers) >= 2 && pagePattern != nil
+//@   loop 0 invariant linksOK(allLinkInfo, ascendingNumbers) && numbersOK(ascendingNumbers) && freshslice(allPageInfo)
